@@ -14,7 +14,8 @@ import vf
 WRAPS = ["pthread_mutex_lock", "pthread_mutex_unlock", "pthread_cond_wait", "pthread_cond_signal",
          "pthread_create", "epoll_pwait", "uv__work_submit"]
 ECANCELED, EBUSY = -125, -16
-HARNESS_ERR = ("hang", "schederr", "forkfail", "bad", "initfail", "badpool")
+HARNESS_ERR = ("hang", "schederr", "forkfail", "bad", "initfail", "badpool", "abort", "crash")
+REPRODUCIBLE = ("hang", "v3", "abort", "crash")     # a violation when the same case does it twice
 
 
 def corpus(name):
@@ -32,8 +33,10 @@ def gen_ops(rng, nops, maxreq, kinds, top):
         if r < 0.55:
             ops.append(rng.choice(kinds))
             subs += 1
-        elif r < 0.85:
+        elif r < 0.82:
             ops.append("x%d" % rng.randrange(maxreq))
+        elif r < 0.88:
+            ops.append("T")
         elif top:
             ops.append("R")
         else:
@@ -80,7 +83,9 @@ def gen_case(rng, small=False):
         total += subs
     behs = []
     for r in range(total):
-        if rng.random() < 0.25 and total < 14:
+        if rng.random() < 0.12:
+            behs.append("%d:T" % r)
+        elif rng.random() < 0.25 and total < 14:
             ops, subs = gen_ops(rng, rng.randint(1, 2), budget + 2, kinds, False)
             behs.append("%d:%s" % (r, "".join(ops)))
             total += subs
@@ -107,6 +112,10 @@ def enum_configs(nworkers, maxreq):
             if k >= 2:
                 out.append("%d ; %s ; 0:x1" % (nworkers, base))
                 out.append("%d ; %s ; 1:x0" % (nworkers, base))
+                # uv_stop from a completion callback / from the script, with uv_run calls around
+                out.append("%d ; %s ; 0:T 1:T" % (nworkers, base))
+                out.append("%d ; %sRR ; 0:T" % (nworkers, base))
+                out.append("%d ; %sTR ; 1:T" % (nworkers, base))
     return out
 
 
@@ -144,6 +153,8 @@ def monitor(case, line):
             continue
         for tk in toks:
             c = tk[0]
+            if tk == "!spin":
+                return "thread %d runs without ever reaching a blocking point (spins)" % t
             if c == "!":
                 return "harness check failed in a step of thread %d: %s" % (t, tk[1:])
             if c == "+":
@@ -204,6 +215,8 @@ def monitor(case, line):
             elif c == "a":
                 if tk == "a0" and t < nloops and outstanding[t] > 0:
                     return "uv_run returned 0 on loop %d with %d requests outstanding" % (t, outstanding[t])
+    if verdict == 3:
+        return "a thread spins"
     if verdict == 2:
         return "deadlock: requests outstanding and no thread can run"
     if verdict == 0:
@@ -256,20 +269,31 @@ def main():
     a = run_impl(cases)
     b, _, _ = vf.run_lines([model], cases, shards=8)
 
-    # watchdog / scheduler trouble is a harness error, unless the same case does it again
+    # watchdog / scheduler trouble: every such case is run a second time.  A hang, spin, abort or
+    # crash that the same case shows again is a property of the library under that schedule and goes
+    # to the monitor (violation with this case as the failing input); anything else is a harness
+    # error (exit 2).
     if len(a) == len(cases):
-        bad = [i for i, l in enumerate(a) if harness_error(l)]
-        again = []
-        for i in bad[:5]:
-            r = run_impl([cases[i]], shards=1)
-            if r and not harness_error(r[0]):
-                a[i] = r[0]
-            else:
-                again.append(i)
-        if bad and len(bad) > 5 or again and any("hang" not in a[i] for i in again):
-            print("HARNESS-ERROR: %d cases ended with a harness error, e.g. %r" % (len(bad), a[bad[0]][-80:]))
-            chk.scratch.cleanup()
-            sys.exit(2)
+        bad = [i for i, l in enumerate(a) if harness_error(l) or l.split()[-1:] == ["v3"]]
+        if bad:
+            second = run_impl([cases[i] for i in bad[:40]], shards=14)
+            flaky, fatal = 0, None
+            for i, l2 in zip(bad[:40], second):
+                def cls(l):
+                    w = l.split()[-1:] or [""]
+                    return w[0]
+                if cls(l2) == cls(a[i]) and cls(l2) in REPRODUCIBLE:
+                    continue
+                if harness_error(l2) or cls(l2) == "v3":
+                    fatal = fatal or (cases[i], a[i][-60:], l2[-60:])
+                else:
+                    a[i] = l2
+                    flaky += 1
+            chk.cov["watchdog"] = {"cases": len(bad), "rerun": len(bad[:40]), "not_reproduced": flaky}
+            if fatal:
+                print("HARNESS-ERROR: case %r ended with %r and then %r" % fatal)
+                chk.scratch.cleanup()
+                sys.exit(2)
     vf.diff_cases(chk, "threadpool.c = Model/ThreadPool.v (lock-step under the serialising scheduler)",
                   cases, a, b, monitor)
 
